@@ -81,7 +81,8 @@ func (h *c07History) render(pkg string) (map[string]string, []string) {
 	var order []string
 	for i, ds := range h.files {
 		p := &fo.Program{Pkg: pkg, Imports: []string{"frt", "slice", "strings"}, Decls: ds}
-		name := fmt.Sprintf("f%d.fo", i)
+		// stems ending in the letters of the extension, containing a dot: each X.fo must yield gen_X.go
+		name := []string{"f0.fo", "hello.fo", "a.b.fo", "off.fo", "go.fo"}[i%5]
 		if len(h.files) == 1 {
 			name = "x.fo"
 		}
